@@ -1123,7 +1123,7 @@ func (cx *Ctx) lostUpdates(cw *c13Walk) []lostUpdate {
 // everything it met.
 func (cx *Ctx) freshThroughWriter(R, Sp, S *Event) bool {
 	cs, ok := S.Site.(ssa.CallInstruction)
-	if !ok || len(cs.Common().Args) < 2 {
+	if !ok || len(storeArgs(cs)) < 2 {
 		return false
 	}
 	anc := func(ev *Event) map[token.Pos]bool {
@@ -1159,7 +1159,7 @@ func (cx *Ctx) freshThroughWriter(R, Sp, S *Event) bool {
 		c, ok := v.(*ssa.Call)
 		return ok && ancSp[c.Pos()]
 	}
-	dep := sl.derives(cs.Common().Args[1], stack, -1)
+	dep := sl.derives(storeArgs(cs)[1], stack, -1)
 	return !dep && !sl.unknown
 }
 
@@ -1431,7 +1431,7 @@ func (cx *Ctx) recordPrefixes() map[string]map[string]bool {
 			if p.Kind != "store.set" || len(p.Prefix) != 1 || len(p.Site.Common().Args) < 2 {
 				continue
 			}
-			ms := marshalSource(p.Site.Common().Args[1])
+			ms := marshalSource(storeArgs(p.Site)[1])
 			if ms == nil {
 				continue
 			}
